@@ -645,14 +645,17 @@ theorem iter_ok (F : Bool) (root v : XVal) (kids : List Kid) (sought passed : Li
           · simp at h1; subst h1; exact hroot
         · exact hf
 
-theorem finish_ok (F : Bool) (root v : XVal) (passed : List Str) (ff : Bool) (o : Out)
-    (hroot : getL root passed = .ok (some v)) (h : finish F v passed ff = .ok o) : ResOK root o := by
+theorem finish_ok (F : Bool) (root v : XVal) (passed : List Str) (found : List Hit) (ff : Bool) (o : Out)
+    (hroot : getL root passed = .ok (some v)) (hf : AllOK root found)
+    (h : finish F v passed found ff = .ok o) : ResOK root o := by
   unfold finish at h
   simp at h; subst h
   intro hs hhs
   simp at hhs; subst hhs
   intro x hx
-  simp at hx; subst hx; exact hroot
+  rcases List.mem_append.1 hx with h1 | h1
+  · exact hf x h1
+  · simp at h1; subst h1; exact hroot
 
 theorem loopEmpty_ok (F : Bool) (root v : XVal) (kids : List Kid) (passed : List Str) (any : Nat)
     (found : List Hit) (ff : Bool) (o : Out)
@@ -672,8 +675,8 @@ theorem loopEmpty_ok (F : Bool) (root v : XVal) (kids : List Kid) (passed : List
         simp only at h
         split at h
         · simp at h
-        · exact finish_ok F root v passed ff' o hroot h
-  · exact finish_ok F root v passed ff o hroot h
+        · exact finish_ok F root v passed f ff' o hroot hlo h
+  · exact finish_ok F root v passed found ff o hroot hf h
 
 theorem whileLoop_ok (F : Bool) (root v : XVal) (kids : List Kid) (passed : List Str)
     (hroot : getL root passed = .ok (some v)) (hk : KidsOK F root v kids) (n : Nat) :
@@ -1181,13 +1184,13 @@ theorem iter_sync (v : XVal) (kidsF kidsT : List Kid) (sought passed : List Str)
       subst h
       exact ⟨_, rfl, _, false, rfl, List.prefix_refl _, fun _ => rfl, by simp⟩
 
-theorem finish_sync (v : XVal) (passed : List Str) :
-    Sync (finish false v passed false) (finish true v passed false) := by
+theorem finish_sync (v : XVal) (passed : List Str) (found : List Hit) :
+    Sync (finish false v passed found false) (finish true v passed found false) := by
   intro o ho
   simp [finish] at ho
   subst ho
-  refine ⟨[(passed, v)], rfl, [(passed, v)], !passed.isEmpty, by simp [finish], List.prefix_refl _,
-    fun _ => rfl, by simp⟩
+  refine ⟨found ++ [(passed, v)], rfl, found ++ [(passed, v)], !passed.isEmpty, by simp [finish],
+    List.prefix_refl _, fun _ => rfl, by simp⟩
 
 theorem loopEmpty_sync (v : XVal) (kidsF kidsT : List Kid) (passed : List Str) (any : Nat)
     (found : List Hit)
@@ -1207,7 +1210,7 @@ theorem loopEmpty_sync (v : XVal) (kidsF kidsT : List Kid) (passed : List Str) (
       simp at ho
       subst ho
       exact ⟨f, rfl, f', ff', by rw [hT], hpre, heq, hne⟩
-  · exact finish_sync v passed
+  · exact finish_sync v passed found
 
 theorem whileLoop_sync (v : XVal) (kidsF kidsT : List Kid) (passed sought : List Str) (any : Nat)
     (found : List Hit) (hs : NoUp sought)
